@@ -230,7 +230,8 @@ EXTRA = {
     'C06': 'Also: descriptor rows designate the member they name (R05.2, shared with C05); every per-snapshot array of the archive index gets a value that does not depend on a field being present in the delta (R06.7).',
     'C07': 'Also: every branch of Simulation.save_to_file that calls a C save function drains the message queue afterwards (R07.9).',
     'C08': 'Also: the escape and close-encounter scans of the heartbeat range over the real particles only, compare in the right direction and set the matching status (R08.7); '
-           'time and step comparisons of the catch-up loops, the exit test and the snapshot cadence are direction-normalised, and every catch-up loop clamps its last sub-step (R08.8).',
+           'time and step comparisons of the catch-up loops, the exit test and the snapshot cadence are direction-normalised, and every catch-up loop clamps its last sub-step (R08.8); the swept-sphere tests of the line collision searches are typed the same way, the time of closest approach '
+           'taking the role of the step in the extrapolation formula; the synchronise that ends integrate() restores a keep_unsynchronized integrator and leaves its flag alone (R09.3, R09.9).',
     'C09': 'Also: Simulationarchive.getSimulation sets the keep_unsynchronized switches before the first synchronising call in every branch (R09.7) and only on the integrator '
            'whose safe_mode it examined, because the C init routines refuse keep_unsynchronized with safe_mode (R09.8); the scratch copy of the Jacobi state is allocated and filled under exactly the path '
            'conditions under which it is restored and freed (R09.9).',
